@@ -1664,6 +1664,12 @@ func (p *Posix) CompleteMultipartUpload(ctx context.Context, input *s3.CompleteM
 	vEnabled := p.isBucketVersioningEnabled(vStatus)
 
 	d, err := os.Stat(objname)
+	if err == nil && d.IsDir() {
+		// as for PutObject: the key of a file object cannot take the place
+		// of a directory (the publishing rename would remove an empty one,
+		// which is what a directory object "key/" is)
+		return nil, s3err.GetAPIError(s3err.ErrExistingObjectIsDirectory)
+	}
 
 	// if the versioninng is enabled first create the file object version
 	preserveCurrentVersion := p.versioningEnabled() && vEnabled && err == nil && !d.IsDir()
